@@ -92,6 +92,52 @@ def run(ctx):
         for _ in range(per_class):
             val = gen.entity(cls)
             instances.append((cls, lambda cls=cls, val=val: build(cls, val)))
+    # instances RETURNED BY THE DECODER (the property is about every entity instance, and most instances a
+    # user holds come from entity_reader): a sample of all classes, plus every class with a bytes/records
+    # field carrying a payload larger than any internal chunk size one might choose (70 000 bytes)
+    import io
+    from kio.serial import entity_reader, entity_writer
+
+    def enlarge(v):
+        """the first bytes leaf becomes 70 000 bytes; None if there is none"""
+        if v[0] == "bytes":
+            return ("bytes", bytes(r.getrandbits(8) for _ in range(64)) * 1094)
+        if v[0] in ("arr", "ent"):
+            for k, x in enumerate(v[1]):
+                y = enlarge(x)
+                if y is not None:
+                    items = list(v[1]); items[k] = y
+                    return (v[0], items)
+        return None
+
+    def decoded(cls, val):
+        buf = io.BytesIO()
+        entity_writer(cls)(buf, to_py(cls, val))
+        buf.seek(0)
+        return entity_reader(cls)(buf)
+
+    n_decoded = 0
+    no_model = set()     # indices of instances too large to print as Coq terms: evaluated on the implementation only
+    for ci in range(n_schema):
+        cls = classes[ci]
+        cands = []
+        if ci % (6 if ctx["tier"] == "quick" else 1) == 0:
+            cands.append((gen.entity(cls), False))
+        if any(d.kafka in ("bytes", "records") for d in describe(cls)) and (ctx["tier"] != "quick" or ci % 3 == 0):
+            for _ in range(4):
+                big = enlarge(gen.entity(cls, want_default=False))
+                if big is not None:
+                    cands.append((big, True))
+                    break
+        for val, is_big in cands:
+            try:
+                decoded(cls, val)
+            except Exception:  # noqa  (not encodable: C01's business)
+                continue
+            n_decoded += 1
+            if is_big:
+                no_model.add(len(instances))
+            instances.append((cls, lambda cls=cls, val=val: decoded(cls, val)))
     # the record classes
     rr = random.Random(ctx["seed"] + 1)
     for _ in range(20 if ctx["tier"] == "quick" else 200):
@@ -105,7 +151,8 @@ def run(ctx):
             rd = rc.impl_read(out[1])
             if rd[0] == "ok":
                 instances.append((None, lambda b=rd[1]: rc.py_batch(b)))
-    for cls, make in instances:
+    for inst_idx, (cls, make) in enumerate(instances):
+        with_model = inst_idx not in no_model
         a = make()
         b = make()
         cls = type(a)
@@ -146,7 +193,8 @@ def run(ctx):
         except TypeError:
             h_eq = False
             bad("instance is not hashable")
-        eqcases.append((before, from_py(b), py_eq, h_eq))
+        if with_model:
+            eqcases.append((before, from_py(b), py_eq, h_eq))
         if not py_eq:
             bad("structurally equal instances compare unequal")
         # single-field perturbations: equal exactly when all fields are equal
@@ -168,13 +216,17 @@ def run(ctx):
                 heq = hash(a) == hash(c)
             except TypeError:
                 heq = False
-            eqcases.append((va, vc, peq, heq))
+            if with_model:
+                eqcases.append((va, vc, peq, heq))
             if peq != all_fields_equal:
                 bad(f"== is {peq} but all-fields-equal is {all_fields_equal} after changing {f.name}")
             if peq and not heq:
                 bad(f"equal instances hash differently after changing {f.name}")
-            if len({a, c}) != (1 if peq else 2):
-                bad("set membership inconsistent with ==")
+            try:
+                if len({a, c}) != (1 if peq else 2):
+                    bad("set membership inconsistent with ==")
+            except TypeError:
+                pass        # unhashable: reported above
         # copies
         for opname, fn in (("copy", copy.copy), ("deepcopy", copy.deepcopy), ("replace", dataclasses.replace),
                            ("pickle", lambda x: pickle.loads(pickle.dumps(x)))):
@@ -184,7 +236,11 @@ def run(ctx):
             except Exception as e:  # noqa
                 bad(f"{opname} raised {type(e).__name__}: {e}"[:200])
                 continue
-            if not (c == a and type(c) is type(a) and hash(c) == hash(a)):
+            try:
+                same = c == a and type(c) is type(a) and hash(c) == hash(a)
+            except TypeError:
+                same = c == a and type(c) is type(a)     # unhashable: reported above
+            if not same:
                 bad(f"{opname} produced an unequal instance")
         if from_py(a) != before:
             bad("the original instance changed")
@@ -231,7 +287,8 @@ def run(ctx):
     cov = {
         "evaluations": n_inst, "distinct_nontrivial": n_inst,
         "traces_validated_against_impl": len(eqcases) - len(failing),
-        "rule": "generated instances of every entity class and of the four record classes (incl. batches returned by "
+        "decoded_instances": n_decoded,
+        "rule": "instances returned by entity_reader (a sample of all classes + 70 000-byte bytes/records payloads), generated instances of every entity class and of the four record classes (incl. batches returned by "
                 "read_batch): setattr/delattr on every field and a fresh name, __dict__ absence, deep immutability of field "
                 "values, ==/hash against an equal rebuild and against every single-field perturbation (timestamps by 1 us / "
                 "1 ms), copy, deepcopy, replace, pickle, original unchanged",
